@@ -289,7 +289,7 @@ def record_planning(name, net, eq, data, chk, policy='first_fit'):
     return box['tr']
 
 
-def random_services(net, rng, n, tag):
+def random_services(net, rng, n, tag, nrange=(-240, 400)):
     """seeded service batch (JSON form): free / fixed N / fixed M / fixed both / multi-slot / over-provisioned,
     uni- and bidirectional, 50 and 75 GHz spacing; distinct fixed N values are spread so that some collide"""
     from gnpy.core.elements import Transceiver
@@ -301,7 +301,7 @@ def random_services(net, rng, n, tag):
         nbwl = rng.choice([1, 1, 2, 3, 8, 30])
         spacing, pcm = rng.choice([(50e9, 4), (75e9, 6)])
         kind = rng.choice(['free', 'free', 'fixN', 'fixM', 'fixNM', 'two', 'over', 'twofixed'])
-        n0 = rng.randrange(-240, 400, 8)
+        n0 = rng.randrange(nrange[0], nrange[1], 8)
         w = nbwl * pcm
         slots = {'free': [(None, None)], 'fixN': [(n0, None)], 'fixM': [(None, w)], 'fixNM': [(n0, w)],
                  'two': [(n0, pcm), (None, None)], 'over': [(n0, w + pcm), (None, None)],
@@ -429,7 +429,8 @@ def run_b3(chk):
     # multiband network (C+L OMS next to C-only OMS): unusable gaps inside the axis
     for b in range(1 if chk.tier == 'quick' else 6):
         net, eq = fresh_net('multiband_example_network.json', 'eqpt_config_multiband.json')
-        data, kinds = random_services(net, rng, 10, f'm{b}-')
+        # fixed N values spread over the L band, the gap between the bands and the C band
+        data, kinds = random_services(net, rng, 12, f'm{b}-', nrange=(-1040, 440))
         jobs.append(record_planning(f'multiband:seeded-batch-{b}', net, eq, loadable(data, kinds, eq, chk), chk,
                                     policy='last_fit' if b % 2 == 1 else 'first_fit'))
     # amplifier band edges off the 6.25 GHz grid (191.2781 - 196.1230 THz): the slots cut by an edge are outside the band
